@@ -265,7 +265,8 @@ class _RunC09(Contract):
         link_nan(c, g, i, j)
         v0 = g["Phi"].vecfn(((i,), (j,)))
         xi0 = g["Xi"].get(i, j)
-        ok = And_(Implies_(hc["conj"], conj_present(g["Lam"], g["Lam"].get(i, j))),
+        conj_on = hc["conj"] if z3.is_expr(hc["conj"]) or isinstance(hc["conj"], bool) else bool(hc["conj"])
+        ok = And_(Implies_(conj_on, conj_present(g["Lam"], g["Lam"].get(i, j))),
                   sym.lt(0, xi0), sym.lt(xi0, hc["xi_max"]),
                   mpc_ok(v0, hc["mpc_lim"]), mpd_ok(v0, hc["mpd_lim"]))
         if g["Fc"] is not None:
@@ -279,7 +280,7 @@ class _RunC09(Contract):
         retained = Not_(fn.nan)
         # (a) soundness, criterion by criterion so that a violation names the criterion
         if True:
-            c.oblige("post", "sound.conj", Implies_(And_(retained, hc["conj"]), conj_present(g["Lam"], g["Lam"].get(i, j))))
+            c.oblige("post", "sound.conj", Implies_(And_(retained, conj_on), conj_present(g["Lam"], g["Lam"].get(i, j))))
             c.oblige("post", "sound.damping", Implies_(retained, And_(sym.lt(0, xi0), sym.lt(xi0, hc["xi_max"]))))
             c.oblige("post", "sound.mpc", Implies_(retained, mpc_ok(v0, hc["mpc_lim"])))
             c.oblige("post", "sound.mpd", Implies_(retained, mpd_ok(v0, hc["mpd_lim"])))
@@ -322,7 +323,8 @@ class _RunC09(Contract):
         link_nan(c, g, i, j)
         v0 = g["Phi"].vecfn(((i,), (j,)))
         xi0 = g["Xi"].get(i, j)
-        ok_wo_mpd = And_(Implies_(hc["conj"], conj_present(g["Lam"], g["Lam"].get(i, j))), sym.lt(0, xi0),
+        conj_on = hc["conj"] if z3.is_expr(hc["conj"]) or isinstance(hc["conj"], bool) else bool(hc["conj"])
+        ok_wo_mpd = And_(Implies_(conj_on, conj_present(g["Lam"], g["Lam"].get(i, j))), sym.lt(0, xi0),
                          sym.lt(xi0, hc["xi_max"]), mpc_ok(v0, hc["mpc_lim"]), Not_(g["nanp"](i, j)))
         if g["Fc"] is not None:
             ok_wo_mpd = And_(ok_wo_mpd, sym.lt(g["Fc"].get(i, j), hc["cov_max"]))
@@ -347,6 +349,39 @@ class SSIdat_run(_RunC09):
 
     def setup(self, c):
         return {"self": ssi_algo(c, "SSIdat")}
+
+
+@register
+class SSIdat_run_conj_int(_RunC09):
+    """the conjugate criterion switched on with a truthy value that is not the singleton True (hc is an untyped dict: 1, np.bool_(True), ...)"""
+    qualname = "pyoma2.algorithms.ssi.SSIdat.run"
+    name = "conj given as 1"
+
+    def setup(self, c):
+        a = ssi_algo(c, "SSIdat")
+        a.fields["run_params"].fields["hc"]["conj"] = 1
+        return {"self": a}
+
+    def witness(self, o):
+        w = _RunC09.witness(self, o)
+        w["inputs"].setdefault("hc", {})["conj"] = 1
+        return w
+
+
+@register
+class pLSCF_run_conj_int(_RunC09):
+    qualname = "pyoma2.algorithms.plscf.pLSCF.run"
+    name = "conj given as 1"
+
+    def setup(self, c):
+        a = plscf_algo(c, "pLSCF")
+        a.fields["run_params"].fields["hc"]["conj"] = 1
+        return {"self": a}
+
+    def witness(self, o):
+        w = _RunC09.witness(self, o)
+        w["inputs"].setdefault("hc", {})["conj"] = 1
+        return w
 
 
 @register
